@@ -726,7 +726,7 @@ def gen_tables(repo):
 # effect-relevant calls; everything else is dropped.  Fail-closed on statement
 # kinds the reduction does not know.
 
-EFFECT_VOCAB = ('tofile', 'truncate', '_update_len', '_update_arrayinfo', '_update_readmetxt',
+EFFECT_VOCAB = ('tofile', 'truncate', '_update_len', '_update_lens', '_update_arrayinfo', '_update_readmetxt',
                 '_update_arraydescr', '_write_jsondict', '_write_txt', '_append', 'truncate_array',
                 'append', 'iterappend', 'write', 'unlink', 'rename', 'replace', 'remove')
 
@@ -740,6 +740,27 @@ def _call_name(c):
     return None
 
 
+def _subarray_of(c):
+    """'@_values' / '@_indices' when the call's receiver or first argument names that
+    sub-array of a RaggedArray (the effect then lands in that sub-directory)"""
+    where = []
+    if isinstance(c.func, ast.Attribute):
+        where.append(c.func.value)
+    where += c.args[:1]
+    for w in where:
+        for n in ast.walk(w):
+            if isinstance(n, ast.Attribute) and n.attr in ('_values', '_indices'):
+                return '@' + n.attr
+            if isinstance(n, ast.Name) and n.id in _LOOPVAR:
+                for m in ast.walk(_LOOPVAR[n.id]):
+                    if isinstance(m, ast.Attribute) and m.attr in ('_values', '_indices'):
+                        return '@' + m.attr
+    return ''
+
+
+_LOOPVAR = {}   # loop variables of an unrolled `for x, .. in ((e1, ..), (e2, ..))`
+
+
 def _calls_in(node):
     """effect calls inside an expression / simple statement, in evaluation order"""
     out = []
@@ -750,7 +771,7 @@ def _calls_in(node):
         for ch in ast.iter_child_nodes(n):
             visit(ch)
         if isinstance(n, ast.Call) and _call_name(n) in EFFECT_VOCAB:
-            out.append(_call_name(n))
+            out.append(_call_name(n) + _subarray_of(n))
     if node is not None:
         visit(node)
     return out
@@ -785,6 +806,21 @@ def _sk_stmt(s):
     if isinstance(s, ast.For):
         if s.orelse:
             fail(s, 'for-else in an effect skeleton')
+        if isinstance(s.iter, ast.Tuple) and s.iter.elts and isinstance(s.target, ast.Tuple) \
+                and all(isinstance(t, ast.Name) for t in s.target.elts) \
+                and all(isinstance(e, ast.Tuple) and len(e.elts) == len(s.target.elts) for e in s.iter.elts):
+            # a loop over a literal tuple of tuples is unrolled
+            parts = []
+            for e in s.iter.elts:
+                saved = dict(_LOOPVAR)
+                for t, v in zip(s.target.elts, e.elts):
+                    _LOOPVAR[t.id] = v
+                try:
+                    parts.append(_sk_stmts(s.body))
+                finally:
+                    _LOOPVAR.clear()
+                    _LOOPVAR.update(saved)
+            return _seq(parts)
         return _seq(calls(s.iter) + [f'(For {_sk_stmts(s.body)})'])
     if isinstance(s, ast.While):
         if s.orelse:
@@ -817,7 +853,10 @@ EFFECT_FUNS = (('darr/array.py', 'Array', '_update_arrayinfo', 'sk_update_arrayi
                ('darr/array.py', 'Array', 'iterappend', 'sk_iterappend'),
                ('darr/array.py', 'Array', 'append', 'sk_append_method'),
                ('darr/array.py', None, 'truncate_array', 'sk_truncate_array'),
-               ('darr/raggedarray.py', None, 'truncate_raggedarray', 'sk_truncate_raggedarray'))
+               ('darr/raggedarray.py', None, 'truncate_raggedarray', 'sk_truncate_raggedarray'),
+               ('darr/raggedarray.py', 'RaggedArray', '_append', 'sk_ragged_append'),
+               ('darr/raggedarray.py', 'RaggedArray', '_update_lens', 'sk_ragged_update_lens'),
+               ('darr/raggedarray.py', 'RaggedArray', 'iterappend', 'sk_ragged_iterappend'))
 
 EFFECTS_HEADER = """(* GENERATED by /verif/gen/py2v.py from darr/array.py, darr/raggedarray.py -- do not edit.
    Control skeletons of the functions that change files, over the vocabulary
